@@ -954,6 +954,11 @@ impl MDL {
             lod.index_buffer_size = total_index_buffer_size.wrapping_add(index_padding);
         }
 
+        // the shape tables may have changed: their counts go into the runtime size below
+        self.model_data.header.shape_count = self.model_data.shapes.len() as u16;
+        self.model_data.header.shape_mesh_count = self.model_data.shape_meshes.len() as u16;
+        self.model_data.header.shape_value_count = self.model_data.shape_values.len() as u16;
+
         // update lod values
         self.file_header.stack_size = self.file_header.calculate_stack_size();
         self.file_header.runtime_size = self.model_data.calculate_runtime_size();
@@ -996,9 +1001,6 @@ impl MDL {
             self.file_header.index_offsets[i] = self.model_data.lods[i].index_data_offset;
         }
 
-        self.model_data.header.shape_count = self.model_data.shapes.len() as u16;
-        self.model_data.header.shape_mesh_count = self.model_data.shape_meshes.len() as u16;
-        self.model_data.header.shape_value_count = self.model_data.shape_values.len() as u16;
     }
 
     pub fn write_to_buffer(&self) -> Option<ByteBuffer> {
